@@ -156,7 +156,7 @@ CHECKS = {
               "Exploration with an exhaustive sub-part."),
         design='4/C07'),
     'C11': dict(
-        technique="Hypothesis property-based 3-way differential testing (trainer's find_omen_level vs scorer's OmenScorer.parse vs guesser tables + real MarkovCracker membership) on rulesets produced by the real trainer, with generated and mutated candidate strings; the level PCFGPasswordScorer.parse reports for every candidate incl. e-mail / web-site strings",
+        technique="Hypothesis property-based 3-way differential testing (trainer's find_omen_level vs scorer's OmenScorer.parse vs guesser tables + real MarkovCracker membership) on rulesets produced by the real trainer, with generated and mutated candidate strings; the level PCFGPasswordScorer.parse reports for every candidate incl. e-mail / web-site strings; whole generator levels 0..12 against the reference enumeration over the loaded tables",
         text=("Generated training lists (small alphabets, n-gram 2-5, several encodings) are trained; for training passwords, "
               "generator output and mutated candidates (out-of-alphabet characters at each position, lengths n-1, n, n+1, 21, 22, "
               "empty) the trainer's level, the scorer's level and the level by the guesser's loaded tables must be the same number "
